@@ -69,97 +69,89 @@ theorem node!_ok {s : State V} {i : Id} (h : s.nodes.contains i = true) : ∃ n,
 section
 variable (m : Metric V S) (s : State V) (q : V) (ef layer : Nat)
 
-theorem scanNbrs_total :
+theorem admits_ok (hef : 1 ≤ ef) (rs : List (Hit S)) (d : S) : ∃ b, admits m.sc.lt ef rs d = .ok b := by
+  simp only [admits]
+  split
+  · exact ⟨true, rfl⟩
+  · next h =>
+    cases rs with
+    | nil => simp at h; omega
+    | cons w _ => exact ⟨_, rfl⟩
+
+theorem stops_ok (hef : 1 ≤ ef) (rs : List (Hit S)) (d : S) : ∃ b, stops m.sc.lt ef rs d = .ok b := by
+  simp only [stops]
+  split
+  · next h =>
+    cases rs with
+    | nil => simp at h; omega
+    | cons w _ => exact ⟨_, rfl⟩
+  · exact ⟨false, rfl⟩
+
+theorem scanNbrs_total (hef : 1 ≤ ef) :
     ∀ (nbs : List Id) (cs rs : List (Hit S)) (vis : IdMap Unit),
-      (∀ nb ∈ nbs, s.nodes.contains nb = true) → (∀ c ∈ cs, s.nodes.contains c.id = true) → rs ≠ [] →
-      ∃ cs' rs' vis', scanNbrs m s q ef nbs (cs, rs, vis) = .ok (cs', rs', vis') ∧ rs' ≠ [] ∧
+      (∀ nb ∈ nbs, s.nodes.contains nb = true) → (∀ c ∈ cs, s.nodes.contains c.id = true) →
+      ∃ cs' rs' vis', scanNbrs m s q ef nbs (cs, rs, vis) = .ok (cs', rs', vis') ∧
         (∀ c ∈ cs', s.nodes.contains c.id = true) ∧ cs'.length + unv s vis' ≤ cs.length + unv s vis := by
   intro nbs
   induction nbs with
   | nil =>
-    intro cs rs vis _ hcs hne
-    exact ⟨cs, rs, vis, by simp [scanNbrs], hne, hcs, Nat.le_refl _⟩
+    intro cs rs vis _ hcs
+    exact ⟨cs, rs, vis, by simp [scanNbrs], hcs, Nat.le_refl _⟩
   | cons nb rest ih =>
-    intro cs rs vis hnbs hcs hne
+    intro cs rs vis hnbs hcs
     have hrest : ∀ nb ∈ rest, s.nodes.contains nb = true := fun x hx => hnbs x (List.mem_cons_of_mem _ hx)
     have hnb := hnbs nb (by simp)
     simp only [scanNbrs]
     split
-    · exact ih cs rs vis hrest hcs hne
-    · split
-      · exact ih cs rs vis hrest hcs hne
-      · next hvis =>
-        have hvis' : vis.contains nb = false := by simpa using hvis
-        obtain ⟨n, hn⟩ := node!_ok hnb
-        have hlt : nb < s.nodes.bound := by
-          obtain ⟨n', hn'⟩ := IdMap.contains_iff.1 hnb
-          exact IdMap.lt_bound_of_get? hn'
-        have hdrop := unv_set s vis nb hlt hvis'
-        rw [hn]
+    · exact ih cs rs vis hrest hcs
+    · next hvis =>
+      have hvis' : vis.contains nb = false := by simpa using hvis
+      obtain ⟨n, hn⟩ := node!_ok hnb
+      have hlt : nb < s.nodes.bound := by
+        obtain ⟨n', hn'⟩ := IdMap.contains_iff.1 hnb
+        exact IdMap.lt_bound_of_get? hn'
+      have hdrop := unv_set s vis nb hlt hvis'
+      rw [hn]
+      simp only
+      obtain ⟨b, hb⟩ := admits_ok m ef hef rs (m.dist q n.vec)
+      rw [hb]
+      cases b with
+      | false =>
+        obtain ⟨cs', rs', vis', h1, h3, h4⟩ := ih cs rs (vis.set nb ()) hrest hcs
+        exact ⟨cs', rs', vis', h1, h3, by omega⟩
+      | true =>
         simp only
-        -- `admits` never faults on a non-empty heap
-        have hadm : ∃ b, admits m.sc.lt ef rs (m.dist q n.vec) = .ok b := by
-          simp only [admits]
-          split
-          · exact ⟨true, rfl⟩
-          · cases rs with
-            | nil => exact absurd rfl hne
-            | cons w _ => exact ⟨_, rfl⟩
-        obtain ⟨b, hb⟩ := hadm
-        rw [hb]
-        cases b with
-        | false =>
-          obtain ⟨cs', rs', vis', h1, h2, h3, h4⟩ := ih cs rs (vis.set nb ()) hrest hcs hne
-          exact ⟨cs', rs', vis', h1, h2, h3, by omega⟩
-        | true =>
-          simp only
-          have hne' : (if (insDesc m.sc.lt ⟨nb, m.dist q n.vec⟩ rs).length > ef
-              then (insDesc m.sc.lt ⟨nb, m.dist q n.vec⟩ rs).tail
-              else insDesc m.sc.lt ⟨nb, m.dist q n.vec⟩ rs) ≠ [] := by
-            split
-            · have hlen := length_insDesc m.sc.lt ⟨nb, m.dist q n.vec⟩ rs
-              intro hnil
-              have h0 := congrArg List.length hnil
-              simp only [List.length_tail, List.length_nil] at h0
-              have : rs.length ≠ 0 := fun h => hne (List.eq_nil_of_length_eq_zero h)
-              omega
-            · exact insDesc_ne_nil _ _ _
-          have hcs' : ∀ c ∈ insAsc m.sc.lt ⟨nb, m.dist q n.vec⟩ cs, s.nodes.contains c.id = true := by
-            intro c hc
-            rcases mem_insAsc.1 hc with rfl | hc
-            · exact hnb
-            · exact hcs c hc
-          obtain ⟨cs', rs', vis', h1, h2, h3, h4⟩ := ih _ _ (vis.set nb ()) hrest hcs' hne'
-          refine ⟨cs', rs', vis', h1, h2, h3, ?_⟩
-          have hl : (insAsc m.sc.lt ⟨nb, m.dist q n.vec⟩ cs).length = cs.length + 1 := by
-            rw [(insAsc_perm m.sc.lt _ cs).length_eq]; simp
-          omega
+        have hcs' : ∀ c ∈ insAsc m.sc.lt ⟨nb, m.dist q n.vec⟩ cs, s.nodes.contains c.id = true := by
+          intro c hc
+          rcases mem_insAsc.1 hc with rfl | hc
+          · exact hnb
+          · exact hcs c hc
+        have hl : (insAsc m.sc.lt ⟨nb, m.dist q n.vec⟩ cs).length = cs.length + 1 := by
+          rw [(insAsc_perm m.sc.lt _ cs).length_eq]; simp
+        split
+        · obtain ⟨cs', rs', vis', h1, h3, h4⟩ := ih _ rs (vis.set nb ()) hrest hcs'
+          exact ⟨cs', rs', vis', h1, h3, by omega⟩
+        · obtain ⟨cs', rs', vis', h1, h3, h4⟩ := ih _ _ (vis.set nb ()) hrest hcs'
+          exact ⟨cs', rs', vis', h1, h3, by omega⟩
 
-theorem searchLoop_total (hres : ∀ j w, w ∈ nbrsAt s layer j → s.nodes.contains w = true) :
+theorem searchLoop_total (hef : 1 ≤ ef) (hres : ∀ j w, w ∈ nbrsAt s layer j → s.nodes.contains w = true) :
     ∀ (fuel : Nat) (cs rs : List (Hit S)) (vis : IdMap Unit),
-      (∀ c ∈ cs, s.nodes.contains c.id = true) → rs ≠ [] → cs.length + unv s vis ≤ fuel →
+      (∀ c ∈ cs, s.nodes.contains c.id = true) → cs.length + unv s vis ≤ fuel →
       ∃ res, searchLoop m s q ef layer fuel cs rs vis = .ok res := by
   intro fuel
   induction fuel with
   | zero =>
-    intro cs rs vis _ _ hm
+    intro cs rs vis _ hm
     cases cs with
     | nil => exact ⟨rs, by simp [searchLoop]⟩
     | cons c cs => simp at hm
   | succ fuel ih =>
-    intro cs rs vis hcs hne hm
+    intro cs rs vis hcs hm
     cases cs with
     | nil => exact ⟨rs, by simp [searchLoop]⟩
     | cons c cs =>
       simp only [searchLoop]
-      have hstop : ∃ b, stops m.sc.lt ef rs c.score = .ok b := by
-        simp only [stops]
-        split
-        · cases rs with
-          | nil => exact absurd rfl hne
-          | cons w _ => exact ⟨_, rfl⟩
-        · exact ⟨false, rfl⟩
-      obtain ⟨b, hb⟩ := hstop
+      obtain ⟨b, hb⟩ := stops_ok m ef hef rs c.score
       rw [hb]
       cases b with
       | true => exact ⟨rs, rfl⟩
@@ -172,49 +164,44 @@ theorem searchLoop_total (hres : ∀ j w, w ∈ nbrsAt s layer j → s.nodes.con
         have hcs' : ∀ x ∈ cs, s.nodes.contains x.id = true := fun x hx => hcs x (List.mem_cons_of_mem _ hx)
         simp only [List.length_cons] at hm
         cases he : n.edges[layer]? with
-        | none => exact ih cs rs vis hcs' hne (by omega)
+        | none => exact ih cs rs vis hcs' (by omega)
         | some nbs =>
           simp only
           have hnbs : ∀ nb ∈ nbs, s.nodes.contains nb = true := by
             intro nb hnb
             refine hres c.id nb ?_
             simp [nbrsAt, node!_eq hn, he, hnb]
-          obtain ⟨cs', rs', vis', h1, h2, h3, h4⟩ := scanNbrs_total m s q ef nbs cs rs vis hnbs hcs' hne
+          obtain ⟨cs', rs', vis', h1, h3, h4⟩ := scanNbrs_total m s q ef hef nbs cs rs vis hnbs hcs'
           rw [h1]
-          exact ih cs' rs' vis' h3 h2 (by omega)
+          exact ih cs' rs' vis' h3 (by omega)
 
 /-- **Fuel lemma / no fault.** If the neighbour lists of the layer point to resident
-    vertices and the entry vertex is resident (or soft-deleted), `searchLayer` completes:
-    `|nodes| + 1` rounds suffice and no nil lookup or empty-heap access happens. -/
+    vertices and the start vertex is resident, `searchLayer` completes: `|nodes| + 1` rounds
+    suffice and no nil lookup or empty-heap access happens (the ef clamp of fix f6a780e is
+    what makes the heap bound safe while only soft-deleted vertices have been seen). -/
 theorem searchLayer_total (ep : Id)
     (hres : ∀ j w, w ∈ nbrsAt s layer j → s.nodes.contains w = true)
-    (hep : isDeleted s ep = true ∨ s.nodes.contains ep = true) :
+    (hep : s.nodes.contains ep = true) :
     ∃ res, searchLayer m s q ep ef layer = .ok res := by
   simp only [searchLayer]
-  split
-  · exact ⟨[], rfl⟩
-  · next hdel =>
-    have hc : s.nodes.contains ep = true := by
-      rcases hep with h | h
-      · exact absurd h hdel
-      · exact h
-    obtain ⟨n, hn⟩ := node!_ok hc
-    rw [hn]
-    simp only
-    have hlt : ep < s.nodes.bound := by
-      obtain ⟨n', hn'⟩ := IdMap.contains_iff.1 hc
-      exact IdMap.lt_bound_of_get? hn'
-    have hm : ([⟨ep, m.dist q n.vec⟩] : List (Hit S)).length +
-        unv s ((IdMap.empty : IdMap Unit).set ep ()) ≤ s.nodes.bound + 1 := by
-      have := unv_set s (IdMap.empty : IdMap Unit) ep hlt (by simp [IdMap.contains])
-      rw [unv_empty] at this
-      simp only [List.length_cons, List.length_nil]
-      omega
-    obtain ⟨res, hr⟩ := searchLoop_total m s q ef layer hres (s.nodes.bound + 1)
-      [⟨ep, m.dist q n.vec⟩] [⟨ep, m.dist q n.vec⟩] _
-      (by intro c hc'; rcases List.mem_singleton.1 hc' with rfl; exact hc) (by simp) hm
-    rw [hr]
-    exact ⟨res.reverse, rfl⟩
+  obtain ⟨n, hn⟩ := node!_ok hep
+  rw [hn]
+  simp only
+  have hlt : ep < s.nodes.bound := by
+    obtain ⟨n', hn'⟩ := IdMap.contains_iff.1 hep
+    exact IdMap.lt_bound_of_get? hn'
+  have hm : ([⟨ep, m.dist q n.vec⟩] : List (Hit S)).length +
+      unv s ((IdMap.empty : IdMap Unit).set ep ()) ≤ s.nodes.bound + 1 := by
+    have := unv_set s (IdMap.empty : IdMap Unit) ep hlt (by simp [IdMap.contains])
+    rw [unv_empty] at this
+    simp only [List.length_cons, List.length_nil]
+    omega
+  obtain ⟨res, hr⟩ := searchLoop_total m s q (Nat.max ef 1) layer (Nat.le_max_right _ _) hres
+    (s.nodes.bound + 1) [⟨ep, m.dist q n.vec⟩]
+    (if isDeleted s ep then [] else [⟨ep, m.dist q n.vec⟩]) _
+    (by intro c hc'; rcases List.mem_singleton.1 hc' with rfl; exact hep) hm
+  rw [hr]
+  exact ⟨res.reverse, rfl⟩
 
 end
 end Comet.HNSW
